@@ -89,8 +89,10 @@ Definition g_op (s : sx) : op :=
   let l := gL s in
   let k := gS (nthx 0 l) in
   let a := gI (nthx 1 l) in let b := gI (nthx 2 l) in let c := gI (nthx 3 l) in
-  let na := Z.to_nat a in
-  if k =? "Disturb" then Disturb na b
+  (* slots / stream ids are converted only in the branches that use them: a signature is a 64-bit number and
+     must never be turned into a unary natural *)
+  let na := fun (_ : unit) => Z.to_nat a in
+  if k =? "Disturb" then Disturb (na tt) b
   else if k =? "CUAt" then CUAt a
   else if k =? "CUContaining" then CUContaining a
   else if k =? "TopDIE" then TopDIE a
@@ -103,15 +105,15 @@ Definition g_op (s : sx) : op :=
   else if k =? "CFI" then CFI (negb (a =? 0)%Z)
   else if k =? "CFIDecoded" then CFIDecoded (negb (a =? 0)%Z) b
   else if k =? "TUBySig" then TUBySig a
-  else if k =? "NewIterTUs" then NewIterTUs na
-  else if k =? "NewIterCUs" then NewIterCUs na
-  else if k =? "NewIterDIEs" then NewIterDIEs na b
-  else if k =? "NewIterChildren" then NewIterChildren na b c
-  else if k =? "NewIterSiblings" then NewIterSiblings na b c
-  else if k =? "NewIterSections" then NewIterSections na
-  else if k =? "NewIterSymbols" then NewIterSymbols na
-  else if k =? "NewIterTags" then NewIterTags na
-  else if k =? "Next" then Next na
+  else if k =? "NewIterTUs" then NewIterTUs (na tt)
+  else if k =? "NewIterCUs" then NewIterCUs (na tt)
+  else if k =? "NewIterDIEs" then NewIterDIEs (na tt) b
+  else if k =? "NewIterChildren" then NewIterChildren (na tt) b c
+  else if k =? "NewIterSiblings" then NewIterSiblings (na tt) b c
+  else if k =? "NewIterSections" then NewIterSections (na tt)
+  else if k =? "NewIterSymbols" then NewIterSymbols (na tt)
+  else if k =? "NewIterTags" then NewIterTags (na tt)
+  else if k =? "Next" then Next (na tt)
   else if k =? "ENumSections" then ENumSections
   else if k =? "ESection" then ESection a
   else if k =? "ESectionByName" then ESectionByName a
